@@ -292,8 +292,10 @@ Definition candidates (x : mes_in) : list proj :=
 Definition built (x : mes_in) : list mproj * list proj :=
   mk_projects (mi_voters x) (mi_costs x) (mi_bin x) (candidates x).
 
-(* frac(instance.budget_limit, profile.num_ballots()) *)
-Definition share (x : mes_in) : Q := Qred (mi_budget x / Qnat (nvoters (mi_voters x))).
+(* frac(instance.budget_limit - total_cost(initial allocation), profile.num_ballots()): the voters
+   share what is left of the budget once the initial allocation is paid for *)
+Definition share (x : mes_in) : Q :=
+  Qred ((mi_budget x - tcost (mi_inst x) (mi_init x)) / Qnat (nvoters (mi_voters x))).
 
 Definition start_alloc (x : mes_in) : list proj := mi_init x ++ snd (built x).
 
